@@ -246,3 +246,13 @@ Section VecLen.
   Qed.
 End VecLen.
 
+
+Lemma thrift_vec_bounded_by_input (A : Type) (rd : list N -> res A) :
+  (forall bs, consumed 1 bs (rd bs)) -> (forall bs, rd bs <> Err e_fuel) ->
+  forall e bs, read_thrift_vec rd e bs <> Err e_fuel /\
+               forall v r, read_thrift_vec rd e bs = Ok v r -> (length v + length r < length bs)%nat.
+Proof.
+  intros Hp Hn e bs. split.
+  - apply thrift_vec_never_out_of_fuel; assumption.
+  - intros v r H. eapply thrift_vec_result_le_input; eassumption.
+Qed.
